@@ -33,6 +33,9 @@ def expected_size_bound(comps):
     return math.prod(math.factorial(len(c)) for c in comps) if comps else 1
 
 
+PRE_QUERIES = [(), (), ("fcfs",), ("dot_bracket",), ("fcfs", "dot_bracket"), ("dot_bracket", "fcfs"), ("elements",)]
+
+
 def oracle(case) -> list:
     from rnapolis.common import BpSeq
 
@@ -42,6 +45,10 @@ def oracle(case) -> list:
     b = BpSeq.from_string(text)
     _decoys = [BpSeq.from_string(t) for t in ssref.decoy_texts(len(seq))]  # other objects alive while this one is asked
     out = []
+    # the other notations of the same object may have been asked for first (chosen by a fixed function of the case)
+    earlier = PRE_QUERIES[(len(seq) * 13 + len(pairs) * 5 + sum(i for i, _ in pairs)) % len(PRE_QUERIES)]
+    for q in earlier:
+        getattr(b, q)
     alls = b.all_dot_brackets
     if not isinstance(alls, list):
         return [D("C16:not-a-list", f"all_dot_brackets returned {type(alls).__name__}")]
